@@ -109,6 +109,35 @@ theorem insertByKey_split (x : Loader) (l : List Loader) :
 theorem sortByKey_snoc (l : List Loader) (x : Loader) : sortByKey (l ++ [x]) = insertByKey x (sortByKey l) := by
   simp [sortByKey, List.foldl_append]
 
+/-! ### a class without equal Order() values has one sorted arrangement only -/
+
+theorem eq_of_key_eq (l : List Loader) (hd : l.Pairwise (fun x y => x.cls.key ≠ y.cls.key)) :
+    ∀ a ∈ l, ∀ b ∈ l, a.cls.key = b.cls.key → a = b := by
+  induction l with
+  | nil => intro a ha; cases ha
+  | cons x xs ih =>
+    have hx := (List.pairwise_cons.mp hd).1
+    have ht := (List.pairwise_cons.mp hd).2
+    intro a ha b hb hk
+    rcases List.mem_cons.mp ha with rfl | ha'
+    · rcases List.mem_cons.mp hb with rfl | hb'
+      · rfl
+      · exact absurd hk (hx b hb')
+    · rcases List.mem_cons.mp hb with rfl | hb'
+      · exact absurd hk.symm (hx a ha')
+      · exact ih ht a ha' b hb' hk
+
+/-- whatever algorithm sorts the class (Go's sort.Slice is an insertion sort up to 12 elements and pdqsort beyond,
+    which does not keep equal elements in place): when no two members have the same Order(), every arrangement that
+    is a permutation of the class and ascending by Order() IS the model's `sortByKey` -/
+theorem sortByKey_unique (l l' : List Loader) (hd : l.Pairwise (fun x y => x.cls.key ≠ y.cls.key))
+    (hp : l'.Perm l) (hs : l'.Pairwise KeyLe) : l' = sortByKey l := by
+  refine List.Perm.eq_of_pairwise (le := KeyLe) ?_ hs (sortByKey_sorted l) (hp.trans (sortByKey_perm l).symm)
+  intro a b ha hb h1 h2
+  have ha' : a ∈ l := hp.subset ha
+  have hb' : b ∈ l := (sortByKey_perm l).subset hb
+  exact eq_of_key_eq l hd a ha' b hb' (Int.le_antisymm h1 h2)
+
 /-! ### the loader sequence -/
 
 theorem cls_cases (c : Cls) :
